@@ -3766,3 +3766,18 @@ mod tests {
         assert!(!backend.update_metadata(999, HashMap::new(), true).unwrap());
     }
 }
+
+/// Verification hooks (H5): thin wrappers exposing private pure helpers for differential
+/// evaluation. Compiled only under `--cfg kyrodb_verif`.
+#[cfg(kyrodb_verif)]
+pub fn verif_compute_search_k(k: usize, live_docs: usize, total_slots: usize) -> usize {
+    compute_search_k(k, live_docs, total_slots)
+}
+
+#[cfg(kyrodb_verif)]
+pub fn verif_normalize_in_place_if_needed(
+    distance: DistanceMetric,
+    embedding: &mut [f32],
+) -> Result<()> {
+    normalize_in_place_if_needed(distance, embedding)
+}
